@@ -64,9 +64,12 @@ Step == /\ l <= Len(Ev) /\ l' = l + 1 /\ tid' = tid
 Next == Step
 \* binding to the statistics of the random variant is in Trace_C15R
 \* a trace is accepted iff SOME resolution of the monitor's nondeterminism ends with verdict "ok"
+\* adaptive samplers called without a loss (two parameter rows, none, three; n = 2 points per row): a fresh sample for THAT call
+FreshOK == "fresh_counts" \notin DOMAIN T \/ T.fresh_counts = <<<<4, 2, 6>>, <<4, 2, 6>>>>
 Fin == (l = Len(Ev) + 1) =>
           /\ TLCSet(1, TLCGet(1) \cup {tid})
-          /\ IF verdict = "ok" THEN TLCSet(3, TLCGet(3) \cup {tid})
+          /\ IF verdict = "ok" /\ ~FreshOK THEN TLCSet(4, TLCGet(4) \cup {<<tid, "adaptive-call-without-loss-is-not-a-fresh-sample-for-its-parameters">>})
+             ELSE IF verdict = "ok" THEN TLCSet(3, TLCGet(3) \cup {tid})
              ELSE TLCSet(4, TLCGet(4) \cup {<<tid, verdict>>})
 Post == /\ \A t \in TLCGet(1) \ TLCGet(3) :
              LET p == CHOOSE q \in TLCGet(4) : q[1] = t IN PrintT(<<"REJ", Traces[t].tid, p[2], "">>)
